@@ -44,7 +44,7 @@ func runC14(w *core.WorkerCtx, idx int) *core.CaseResult {
 			t := rigTarget(h, r.PickS("", "", "in_transfer"))
 			t.Series, t.TotalSeries = int64(r.Intn(500)), int64(r.Intn(900))
 			est[h] = [2]int64{t.Series, t.TotalSeries}
-			job := "j1"
+			job := c14JobOf(h)
 			m[job] = append(m[job], t)
 		}
 		if err := rg.in.UpdateTargets(m); err != nil {
@@ -128,38 +128,55 @@ func runC14(w *core.WorkerCtx, idx int) *core.CaseResult {
 			res.Violate("C14/head-series-floor", "after %s: shard reports head series %d, expected max(prometheus head %d, sum of series %d)", after, rt.HeadSeries, promHead, sumS)
 		}
 		// /samples/ aggregates the last scrapes of the job's targets
-		sm, err := rg.in.Samples("j1", true)
-		if err != nil {
-			res.Inconcl = "samples: " + err.Error()
-			return
-		}
-		wantKept, wantPerT, wantPerK := 0, map[string]int{}, map[string]int{}
-		for _, mm := range model {
-			if mm.lastCnt != nil {
-				wantKept += mm.lastCnt.Kept
-				for k, v := range mm.lastCnt.PerTotal {
-					wantPerT[k] += v
-				}
-				for k, v := range mm.lastCnt.PerKept {
-					wantPerK[k] += v
-				}
+		// with and without the job filter
+		for _, filter := range []string{"", "j1", "j2"} {
+			sm, err := rg.in.Samples(filter, true)
+			if err != nil {
+				res.Inconcl = "samples: " + err.Error()
+				return
 			}
-		}
-		if j := sm["j1"]; j != nil || len(model) > 0 {
-			if j == nil {
-				res.Violate("C14/samples-job-missing", "after %s: /samples/ has no entry for job j1", after)
-			} else {
+			for _, job := range []string{"j1", "j2"} {
+				wantKept, wantPerT, wantPerK, has := 0, map[string]int{}, map[string]int{}, false
+				for h, mm := range model {
+					if c14JobOf(h) != job {
+						continue
+					}
+					has = true
+					if mm.lastCnt != nil {
+						wantKept += mm.lastCnt.Kept
+						for k, v := range mm.lastCnt.PerTotal {
+							wantPerT[k] += v
+						}
+						for k, v := range mm.lastCnt.PerKept {
+							wantPerK[k] += v
+						}
+					}
+				}
+				j := sm[job]
+				if filter != "" && filter != job {
+					if j != nil {
+						res.Violate("C14/samples-filter", "after %s: /samples/?job=%s also returns job %s", after, filter, job)
+					}
+					continue
+				}
+				if !has {
+					continue
+				}
+				if j == nil {
+					res.Violate("C14/samples-job-missing", "after %s: /samples/?job=%s has no entry for job %s", after, filter, job)
+					continue
+				}
 				if int(j.ScrapedTotal) != wantKept {
-					res.Violate("C14/samples-total", "after %s: /samples/ scrapedTotal %v, expected %d", after, j.ScrapedTotal, wantKept)
+					res.Violate("C14/samples-total", "after %s: /samples/ job %s scrapedTotal %v, expected %d", after, job, j.ScrapedTotal, wantKept)
 				}
 				for name, mi := range j.MetricsTotal {
 					if int(mi.Total) != wantPerT[name] || int(mi.Scraped) != wantPerK[name] {
-						res.Violate("C14/samples-per-metric", "after %s: /samples/ metric %s %v/%v, expected %d/%d", after, name, mi.Total, mi.Scraped, wantPerT[name], wantPerK[name])
+						res.Violate("C14/samples-per-metric", "after %s: /samples/ job %s metric %s %v/%v, expected %d/%d", after, job, name, mi.Total, mi.Scraped, wantPerT[name], wantPerK[name])
 					}
 				}
 				for name, v := range wantPerT {
 					if v > 0 && j.MetricsTotal[name] == nil {
-						res.Violate("C14/samples-per-metric", "after %s: /samples/ lacks metric %s (expected %d)", after, name, v)
+						res.Violate("C14/samples-per-metric", "after %s: /samples/ job %s lacks metric %s (expected %d)", after, job, name, v)
 					}
 				}
 			}
@@ -205,10 +222,10 @@ func runC14(w *core.WorkerCtx, idx int) *core.CaseResult {
 		// server goroutine whose ordering with this goroutine goes through a socket, which the race
 		// detector cannot see (the harness' own reads would then show up as races)
 		_ = r.Intn(3)
-		o = rg.scrapeDirect("j1", h, 0)
+		o = rg.scrapeDirect(c14JobOf(h), h, 0)
 		res.Execs++
 		res.AddStat("scrapes", 1)
-		cnt := Expect(ss, rs)
+		cnt := Expect(ss, c14RulesOf(h, rs))
 		mm := model[h]
 		op := fmt.Sprintf("scrape target %d with %d samples (kept %d) fail=%q", h, cnt.Total, cnt.Kept, failKind)
 		trace = append(trace, op)
@@ -219,7 +236,12 @@ func runC14(w *core.WorkerCtx, idx int) *core.CaseResult {
 			}
 		} else {
 			if o.Status != 200 || o.Aborted {
-				st, _ := rg.in.Status(); le := ""; if st[h] != nil { le = st[h].LastError }; res.Inconcl = fmt.Sprintf("healthy scrape failed: status %d aborted %v %s lastError=%q op=%s", o.Status, o.Aborted, o.ReadErr, le, op)
+				st, _ := rg.in.Status()
+				le := ""
+				if st[h] != nil {
+					le = st[h].LastError
+				}
+				res.Inconcl = fmt.Sprintf("healthy scrape failed: status %d aborted %v %s lastError=%q op=%s", o.Status, o.Aborted, o.ReadErr, le, op)
 				break
 			}
 			res.AddStat("samples_counted", int64(cnt.Total))
@@ -269,7 +291,7 @@ func init() {
 	core.Register(&core.Prop{
 		ID:    "C14",
 		Level: "exploration",
-		Rule: "case = one real sidecar (service + proxy + targets manager) with one of 6 metric_relabel_configs programs whose per-sample outcome is known by construction, a scripted Prometheus head count, 2-5 targets, and a seed-determined sequence of 4-24 operations (scrape with a generated payload of 0-200 samples - sometimes 3000-6000, i.e. several parser blocks - duplicates included, gzip or identity, through Proxy.ServeHTTP; failing scrapes of three kinds; re-assignments with new estimates); after every operation /targets/status/, /runtimeinfo/, /samples/?with_metrics_detail=true and the in-process LastScrapeStatistics are compared with an arithmetic reference; runs from the -race binary; " +
+		Rule: "case = one real sidecar (service + proxy + targets manager) with one of 6 metric_relabel_configs programs whose per-sample outcome is known by construction, a scripted Prometheus head count, 2-5 targets spread over two jobs (one with the rule set, one without), and a seed-determined sequence of 4-24 operations (scrape with a generated payload of 0-200 samples - sometimes 3000-6000, i.e. several parser blocks - duplicates included, gzip or identity, through Proxy.ServeHTTP; failing scrapes of three kinds; re-assignments with new estimates); after every operation /targets/status/, /runtimeinfo/, /samples/?with_metrics_detail=true (unfiltered and filtered by either job) and the in-process LastScrapeStatistics are compared with an arithmetic reference; runs from the -race binary; " +
 			"non-trivial = at least two scrapes executed; distinct = (rule set, #targets, head value, operation trace hash)",
 		Assumptions: []string{
 			"expected kept/dropped outcome of each sample is evaluated by plain string predicates written next to each rule set, not by the relabel package",
@@ -291,4 +313,20 @@ func init() {
 			return "", false
 		},
 	})
+}
+
+// targets with an even id belong to job j1 (which carries the case's metric relabel program),
+// odd ones to job j2 (no rules: everything is kept)
+func c14JobOf(h uint64) string {
+	if h%2 == 0 {
+		return "j1"
+	}
+	return "j2"
+}
+
+func c14RulesOf(h uint64, rs RuleSet) RuleSet {
+	if h%2 == 0 {
+		return rs
+	}
+	return RuleSets[0]
 }
